@@ -315,8 +315,11 @@ func (in *c05PRInst) deliver(i int, withAck bool) *explore.Fail {
 	// reference verdict. The repository's openers start as if packet 0 had been processed (the RFC
 	// leaves the start value open); before the first packet both readings have to agree.
 	inWindow := in.reference(p, in.highest)
+	startSensitive := false
 	if in.highest < 0 {
-		inWindow = inWindow && in.reference(p, 0)
+		alt := in.reference(p, 0)
+		startSensitive = alt != inWindow
+		inWindow = inWindow && alt
 	}
 	key := func(what string) string { return in.key(what, p) }
 	what := fmt.Sprintf("packet pn=%d (%d-byte packet number %#x, key phase %d, sent knowing pn<=%d acknowledged) at a receiver that has processed packets up to pn=%d (key phase %d)",
@@ -344,6 +347,9 @@ func (in *c05PRInst) deliver(i int, withAck bool) *explore.Fail {
 		dir = "late"
 	}
 	in.outcome += fmt.Sprintf(" pnlen=%d %s in-window=%v rel=%+d %s", p.pnLen, dir, inWindow, p.phase-in.rphase, c05ErrClass(err))
+	if startSensitive {
+		in.outcome += " start-value-sensitive"
+	}
 	if c05IsKeyUpdateError(err) {
 		return explore.Failf(key("keyupdate-error-against-conformant-peer"), "%s: Open returned %v although the peer follows the protocol", what, err)
 	}
@@ -429,10 +435,15 @@ func (in *c05PRInst) Key() string {
 }
 
 func c05PNReorderPart(name string, cfg c05PRConfig) explore.Part {
-	mk := func(e explore.Env) explore.BFSSpec {
-		// package-level intervals, set for the duration of this part (parts run one after the other)
+	// package-level key update intervals: set for the duration of this part (parts run one after the
+	// other) and restored afterwards, because the parts that follow rely on the defaults
+	intervals := func() (restore func()) {
+		oldFirst := FirstKeyUpdateInterval
 		FirstKeyUpdateInterval = c05PRKUFirst
-		SetKeyUpdateInterval(1 << 40)
+		reset := SetKeyUpdateInterval(1 << 40)
+		return func() { FirstKeyUpdateInterval = oldFirst; reset() }
+	}
+	mk := func(e explore.Env) explore.BFSSpec {
 		sh := c05PRNewShared(cfg)
 		depth := cfg.depth[0]
 		if e.Thorough() {
@@ -460,8 +471,12 @@ func c05PNReorderPart(name string, cfg c05PRConfig) explore.Part {
 			if cfg.tier == 1 && !e.Thorough() {
 				return nil
 			}
+			defer intervals()()
 			return explore.BFS(e, mk(e))
 		},
-		Replay: func(e explore.Env, raw json.RawMessage) *explore.Violation { return explore.ReplayBFS(mk(e), raw) },
+		Replay: func(e explore.Env, raw json.RawMessage) *explore.Violation {
+			defer intervals()()
+			return explore.ReplayBFS(mk(e), raw)
+		},
 	}
 }
